@@ -99,11 +99,11 @@ def c01(trace):
         tol = scale / 10 ** 9 + F(1, 10 ** 9)
         # a fill moves the cash of the portfolio the order was submitted to, and of no other
         if st['op'][0] == 'submit' and st['out'] == 'ok' and st.get('order_id') is not None:
-            submitter[st['order_id']] = st['op'][1]
+            submitter.setdefault(st['order_id'], set()).add(st['op'][1])
         for t in st.get('txns', []):
-            if t.get('id') in submitter and t['pid'] != submitter[t['id']]:
+            if t.get('id') in submitter and t['pid'] not in submitter[t['id']]:
                 out.add(i, 'the fill of order %s (%s x %s), submitted to portfolio %s, was debited to portfolio %s'
-                        % (t['id'], t['qty'], t['asset'], submitter[t['id']], t['pid']), 'fill-in-another-portfolio')
+                        % (t['id'], t['qty'], t['asset'], sorted(submitter[t['id']]), t['pid']), 'fill-in-another-portfolio')
         dm, per = movements(st)
         master += dm
         if abs(fx(post['master']) - master) > tol:
@@ -300,7 +300,7 @@ def c03(trace):
 def c04(trace):
     out = Out()
     pending = {}
-    filled_ids = set()
+    filled_ids, submitted_ids = {}, {}
     pre = trace['init']
     last_t = None
     for i, st in enumerate(trace['steps']):
@@ -314,6 +314,7 @@ def c04(trace):
             if known and st['out'] != 'ok':
                 out.add(i, 'order for existing portfolio refused: %s' % st['out'], 'submit-refused')
             if st['out'] == 'ok':
+                submitted_ids[st['order_id']] = submitted_ids.get(st['order_id'], 0) + 1
                 pending.setdefault(pid, []).append((st['order_id'], st['op'][2], st['op'][3]))
                 a, b = obs(pre), obs(post)
                 if a[0] != b[0] or [(x[0], x[1], x[2], x[4]) for x in a[1]] != [(x[0], x[1], x[2], x[4]) for x in b[1]]:
@@ -339,12 +340,23 @@ def c04(trace):
                         out.add(i, 'portfolio %s: fills at the open update %r, expected sells first in submission order %r'
                                 % (pid, got, exp), 'fill-order-or-quantity')
                     pending[pid] = []
+                # filled in full: the holdings of each portfolio moved by exactly the quantities of its fills
+                def _qty(snap_):
+                    return {(p_['id'], q_['asset']): q_['buyQ'] - q_['sellQ'] for p_ in snap_['pfs'] for q_ in p_['positions']}
+                q0, q1 = _qty(pre), _qty(post)
+                moved = {}
+                for f in fills:
+                    moved[(f[0], f[2])] = moved.get((f[0], f[2]), 0) + f[3]
+                for key_ in set(q0) | set(q1) | set(moved):
+                    if q1.get(key_, 0) - q0.get(key_, 0) != moved.get(key_, 0):
+                        out.add(i, 'portfolio %s holds %r of %s after the update, %r before, its fills add up to %r' % (
+                            key_[0], q1.get(key_, 0), key_[1], q0.get(key_, 0), moved.get(key_, 0)), 'fill-not-in-holdings')
                 for f in fills:
                     if f[4] != t:
                         out.add(i, 'fill stamped %d at update %d' % (f[4], t), 'fill-time')
-                    if f[1] in filled_ids:
-                        out.add(i, 'order %r filled twice' % (f[1],), 'filled-twice')
-                    filled_ids.add(f[1])
+                    filled_ids[f[1]] = filled_ids.get(f[1], 0) + 1
+                    if filled_ids[f[1]] > submitted_ids.get(f[1], 0):
+                        out.add(i, 'order %r filled %d times, submitted %d times' % (f[1], filled_ids[f[1]], submitted_ids.get(f[1], 0)), 'filled-twice')
         for p in post['pfs']:
             if [tuple(x) for x in p['queue']] != pending.get(p['id'], []):
                 out.add(i, 'pending orders of %s are %r, expected %r' % (p['id'], p['queue'], pending.get(p['id'], [])),
